@@ -300,10 +300,13 @@ class Interp:
         pending = []
 
         def run(body):
+            # RTLIL keeps the actions and the switches of a case body in two separate lists: all `assign` actions of a body take effect
+            # before any of its switches, whatever their order in the text (kernel/rtlil.h CaseRule; proc passes rely on it)
             for st in body:
                 if st[0] == "assign":
                     pending.append((st[1], self.ev(inst, st[2])))
-                else:
+            for st in body:
+                if st[0] != "assign":
                     sel = self.ev(inst, st[1])
                     w = self.width(inst, st[1])
                     for pats, b in st[2]:
